@@ -374,6 +374,17 @@ func FromLibOpt(opt dhcpv6.Option, sp refv6.Space) (refv6.Opt, error) {
 	o := refv6.Opt{Code: uint16(opt.Code()), Typ: "opaque"}
 	switch x := opt.(type) {
 	case *dhcpv6.OptionGeneric:
+		// a generic option whose code has a typed form (a caller may hold it that way) reads as what its payload says,
+		// by the independent reference reading; anything the reference does not accept or know stays opaque
+		// (only for codes the library itself has a typed form for: its decoder never leaves those generic)
+		if lo, err := dhcpv6.ParseOption(x.OptionCode, x.OptionData); err == nil && sp == refv6.Top {
+			if _, generic := lo.(*dhcpv6.OptionGeneric); !generic {
+				var why refv6.Reason
+				if t, v := refv6.DecodeOpt(o.Code, x.OptionData, sp, nil, &why); v == refv6.Accept && t.Typ != "opaque" {
+					return t, nil
+				}
+			}
+		}
 		o.B = [][]byte{cpb(x.OptionData)}
 		return o, nil
 	case *dhcpv6.OptIANA:
